@@ -1,3 +1,4 @@
+#![cfg_attr(kmertools_verif, allow(unused_imports))]
 use indicatif::{ProgressBar, ProgressStyle};
 use kmer::{kmer::KmerGenerator, numeric_to_kmer, Kmer};
 use ktio::{
@@ -5,7 +6,12 @@ use ktio::{
     seq::{get_reader, SeqFormat, Sequences},
 };
 use rayon::prelude::*;
+#[cfg(not(kmertools_verif))]
 use scc::HashMap as SccMap;
+#[cfg(kmertools_verif)]
+mod verif_shim;
+#[cfg(kmertools_verif)]
+use verif_shim::SccMap;
 use std::{
     cmp::{max, min},
     fs,
@@ -17,7 +23,10 @@ use std::{
 };
 
 // only to make code more readable
+#[cfg(not(kmertools_verif))]
 type SeqArc = Arc<Mutex<Sequences<BufReader<Box<dyn Read + Sync + Send>>>>>;
+#[cfg(kmertools_verif)]
+type SeqArc = Arc<ktio::verif::sync::Mutex<Sequences<BufReader<Box<dyn Read + Sync + Send>>>>>;
 
 pub struct CountComputer {
     in_path: String,
@@ -35,6 +44,8 @@ pub struct CountComputer {
 
 impl CountComputer {
     pub fn new(in_path: String, out_dir: String, ksize: usize) -> Self {
+        #[cfg(kmertools_verif)]
+        use ktio::verif::sync::Mutex;
         let format = SeqFormat::get(&in_path).unwrap();
         let reader = ktio::seq::get_reader(&in_path).unwrap();
         let records = Sequences::new(format, reader).unwrap();
@@ -90,6 +101,8 @@ impl CountComputer {
     }
 
     fn count_chunk(&self, pbar: &ProgressBar) -> u64 {
+        #[cfg(kmertools_verif)]
+        use ktio::verif::sync::AtomicU64;
         let pool: rayon::ThreadPool = rayon::ThreadPoolBuilder::new()
             .num_threads(self.threads)
             .build()
@@ -101,6 +114,8 @@ impl CountComputer {
         let counts_table_arc = Arc::new(counts_table);
         // make pbar for all bases struct wide
 
+        #[cfg(kmertools_verif)]
+        ktio::verif::scope_begin("ctr.count", self.threads, self.threads);
         pool.scope(|scope| {
             for _ in 0..self.threads {
                 let records_arc_clone = Arc::clone(&self.records);
@@ -109,6 +124,8 @@ impl CountComputer {
                 let total_kmers_so_far_clone = Arc::clone(&total_kmers_so_far);
 
                 scope.spawn(move |_| {
+                    #[cfg(kmertools_verif)]
+                    ktio::verif::point("task.start", 0);
                     loop {
                         // when limit reached exit without further reads
                         if total_kmers_so_far_clone.load(Ordering::Relaxed)
@@ -118,6 +135,8 @@ impl CountComputer {
                         }
                         let record = { records_arc_clone.lock().unwrap().next() };
                         if let Some(record) = record {
+                            #[cfg(kmertools_verif)]
+                            ktio::verif::point("ctr.took", record.n as u64);
                             pbar.inc(1);
                             total_records_clone.fetch_add(1, Ordering::Acquire);
                             for (fmer, rmer) in KmerGenerator::new(&record.seq, self.ksize) {
@@ -138,6 +157,8 @@ impl CountComputer {
                             break;
                         }
                     }
+                    #[cfg(kmertools_verif)]
+                    ktio::verif::point("task.exit", 0);
                 });
             }
         });
@@ -170,6 +191,8 @@ impl CountComputer {
     }
 
     pub fn merge(&self, delete: bool) {
+        #[cfg(kmertools_verif)]
+        use ktio::verif::sync::AtomicU64;
         let pool: rayon::ThreadPool = rayon::ThreadPoolBuilder::new()
             .num_threads(self.threads)
             .build()
@@ -191,6 +214,8 @@ impl CountComputer {
             let map_arc = Arc::new(map);
             pbar.set_message(format!("Merging partition: {}", part + 1));
 
+            #[cfg(kmertools_verif)]
+            ktio::verif::scope_begin("ctr.merge", self.chunks as usize, self.threads);
             pool.scope(|scope| {
                 for chunk in 0..self.chunks {
                     let map_arc_clone = Arc::clone(&map_arc);
@@ -198,6 +223,8 @@ impl CountComputer {
                     let completed_clone = Arc::clone(&completed);
 
                     scope.spawn(move |_| {
+                        #[cfg(kmertools_verif)]
+                        ktio::verif::point("task.start", chunk);
                         let path =
                             format!("{}/temp_kmers.part_{}_chunk_{}", self.out_dir, part, chunk);
                         let file = fs::File::open(&path).unwrap();
@@ -213,6 +240,8 @@ impl CountComputer {
                         }
                         completed_clone.fetch_add(1, Ordering::Acquire);
                         pbar_clone.inc(1);
+                        #[cfg(kmertools_verif)]
+                        ktio::verif::point("task.exit", chunk);
                     });
                 }
             });
@@ -246,6 +275,14 @@ impl CountComputer {
         );
         self.n_parts = n_parts;
         self.seq_count = stats.seq_count as u64;
+    }
+}
+
+/// Observation of the chunk / partition grid for the verification harness.
+#[cfg(kmertools_verif)]
+impl CountComputer {
+    pub fn verif_grid(&self) -> (u64, u64) {
+        (self.chunks, self.n_parts)
     }
 }
 
